@@ -115,8 +115,16 @@ static pint cmp3(pconstpointer a, pconstpointer b, ppointer data) {
 }
 static pint cmp2(pconstpointer a, pconstpointer b) { return cmp3(a, b, NULL); }
 
+/* "never while the pair is still stored": during p_tree_remove each notifier asks the tree for the key being removed; the tree must
+ * already answer "absent" (and must not show a destroyed key to the comparator on the way) */
+static int removing_key = -1; static long long st_innotif_lookups;
 static void on_destroy(Obj *o, int isval) {
 	st_destroy_events++;
+	if (removing_key >= 0 && tree != NULL && o != NULL && o->state == ST_LIVE) {
+		Obj p2 = { ST_PROBE, removing_key, 0, 0 }; Obj *saved = cur_probe; int rec = recording; ppointer got;
+		cur_probe = &p2; recording = 0; got = p_tree_lookup(tree, &p2); cur_probe = saved; recording = rec; st_innotif_lookups++;
+		if (got != NULL) viol(14, "destroyed-while-stored", "%s notifier of key %d ran while p_tree_lookup still finds the pair in the tree (remove)", isval ? "value" : "key", removing_key);
+	}
 	if (o == NULL) { viol(14, "destroy-null", "notifier called with NULL"); return; }
 	if (o->state != ST_LIVE) { viol(14, "destroyed-twice", "notifier called for an object that is not owned by the tree (state %x key %d isval %d)", o->state, o->key, o->isval); return; }
 	if (o->isval != isval) viol(14, "wrong-notifier", "key/value notifier mixed up for key %d", o->key);
@@ -377,9 +385,9 @@ static void op_remove(int k) {
 	if (ok) { note_removal_class(k); st_remove_hit++; } else st_remove_miss++;
 	if (abort_hist) return;
 	ndestroyed = 0;
-	cur_probe = &probe;
+	cur_probe = &probe; removing_key = ok ? k : -1;
 	r = p_tree_remove(tree, &probe);
-	cur_probe = NULL;
+	cur_probe = NULL; removing_key = -1;
 	if (abort_hist) return;
 	if ((r != FALSE) != (ok != NULL)) { viol(12, "remove-return", "remove(%d) returned %d, key %s", k, r, ok ? "present" : "absent"); return; }
 	check_destroyed(ok, ov);
@@ -649,9 +657,9 @@ int main(int argc, char **argv) {
 	p_libsys_shutdown();
 	printf("{\"ev\":\"stats\",\"mode\":\"%s\",\"tree\":\"%s\",\"cfg\":%d,\"ops\":%lld,\"histories\":%lld,\"full_checks\":%lld,\"distinct_shapes\":%zu,"
 	       "\"stop_traversals\":%lld,\"inserts\":%lld,\"replaces\":%lld,\"remove_hit\":%lld,\"remove_miss\":%lld,\"clears\":%lld,\"lookups\":%lld,"
-	       "\"compares\":%lld,\"destroy_events\":%lld,\"intkey_ops\":%lld,\"intkey_notifier_calls\":%lld,\"intkey_notifier_calls_with_null\":%lld,\"intkey_replace_with_stored_value\":%lld,\"max_n\":%d,\"max_depth\":%d,\"avl_checked\":%lld,\"rb_checked\":%lld,\"viol\":%d,\"wall\":%.2f,\"removals\":[",
+	       "\"compares\":%lld,\"destroy_events\":%lld,\"lookups_inside_notifiers\":%lld,\"intkey_ops\":%lld,\"intkey_notifier_calls\":%lld,\"intkey_notifier_calls_with_null\":%lld,\"intkey_replace_with_stored_value\":%lld,\"max_n\":%d,\"max_depth\":%d,\"avl_checked\":%lld,\"rb_checked\":%lld,\"viol\":%d,\"wall\":%.2f,\"removals\":[",
 	       mode, TNAME[g_type], cfg, st_ops, st_hist, st_full, shcnt, st_stops, st_insert, st_replace, st_remove_hit, st_remove_miss, st_clear,
-	       st_lookups, ncompare, st_destroy_events, st_ik_ops, st_ik_events, st_ik_null_events, st_ik_same_value, st_maxn, st_maxdepth, st_avl_checked, st_rb_colourings_checked, vh_nviol, vh_now() - t0);
+	       st_lookups, ncompare, st_destroy_events, st_innotif_lookups, st_ik_ops, st_ik_events, st_ik_null_events, st_ik_same_value, st_maxn, st_maxdepth, st_avl_checked, st_rb_colourings_checked, vh_nviol, vh_now() - t0);
 	for (i = 0; i < 3; i++) { printf("%s[", i ? "," : ""); for (j = 0; j < 4; j++) printf("%s%lld", j ? "," : "", st_rm[i][j]); printf("]"); }
 	printf("]}\n");
 	return 0;
